@@ -101,6 +101,17 @@ VIOL = [
     ("viol_transform_point_projective", "v1", "Mat4::perspective_rh(1.0, 1.5, 0.5, 10.0).transform_point3(r.v0)"),
     ("viol_quat_inverse_nonunit", "q1", "(r.q0 * 0.5).inverse()"),
     ("viol_from_mat3_scaled", "q1", "Quat::from_mat3(&(r.r0 * 2.0))"),
+    # each conjunct of a precondition violated on its own: one non-unit column at a time
+    ("viol_to_euler_x_scaled", "s0", "(r.m1 * Mat4::from_scale(Vec3::new(2.0, 1.0, 1.0))).to_euler(EulerRot::XYZ).0"),
+    ("viol_to_euler_y_scaled", "s0", "(r.m1 * Mat4::from_scale(Vec3::new(1.0, 2.0, 1.0))).to_euler(EulerRot::XYZ).0"),
+    ("viol_to_euler_z_scaled", "s0", "(r.m1 * Mat4::from_scale(Vec3::new(1.0, 1.0, 2.0))).to_euler(EulerRot::XYZ).0"),
+    ("viol_to_euler3_x_scaled", "s0", "(r.r0 * Mat3::from_diagonal(Vec3::new(0.5, 1.0, 1.0))).to_euler(EulerRot::ZYX).0"),
+    ("viol_to_euler3_y_scaled", "s0", "(r.r0 * Mat3::from_diagonal(Vec3::new(1.0, 0.5, 1.0))).to_euler(EulerRot::ZYX).0"),
+    ("viol_to_euler3_z_scaled", "s0", "(r.r0 * Mat3::from_diagonal(Vec3::new(1.0, 1.0, 0.5))).to_euler(EulerRot::ZYX).0"),
+    ("viol_from_mat3_x_scaled", "q1", "Quat::from_mat3(&(r.r0 * Mat3::from_diagonal(Vec3::new(2.0, 1.0, 1.0))))"),
+    ("viol_from_mat3_y_scaled", "q1", "Quat::from_mat3(&(r.r0 * Mat3::from_diagonal(Vec3::new(1.0, 2.0, 1.0))))"),
+    ("viol_from_mat3_z_scaled", "q1", "Quat::from_mat3(&(r.r0 * Mat3::from_diagonal(Vec3::new(1.0, 1.0, 2.0))))"),
+    ("viol_look_to_up_nonunit", "m1", "Mat4::look_to_rh(r.v0, r.u0, r.u0.any_orthonormal_vector() * 2.0)"),
 ]
 # Ill-conditioned regions: when the INPUTS of an operation satisfy the predicate, its result is discontinuous or amplifies
 # rounding by more than 2^10 (angles through arccos near 0 / pi, axes of tiny rotations, arbitrary axes for opposite
